@@ -22,6 +22,7 @@ type Engine struct {
 	prelude *Prelude
 	funcs   map[string]*ssa.Function
 	nonNilGlobal map[*ssa.Global]bool
+	adapters []*ReplayAdapter
 }
 
 type modelFn func(f *Frame, in ssa.Instruction, args []Val, o *blockOut, resT types.Type) Val
@@ -52,6 +53,7 @@ func LoadEngine(repo, preludePath string) (*Engine, error) {
 		eng.funcs[fn.String()] = fn
 	}
 	eng.findNonNilGlobals()
+	eng.adapters = loadAdapters("/verif/replay/adapters.json")
 	ct, err := LoadContracts(repo)
 	if err != nil {
 		return nil, err
@@ -212,6 +214,7 @@ func (eng *Engine) Verify(con *Contract) (*VC, error) {
 	vc.safetyN = map[string]int{}
 	vc.usedCallCl = map[string]bool{}
 	vc.allowPanic = con.AllowPanic
+	vc.adapter = eng.adapterFor(con.Key)
 	fr := newFrame(vc, fn, nil)
 	fr.top = true
 	fr.con = con
@@ -268,6 +271,7 @@ func (eng *Engine) Verify(con *Contract) (*VC, error) {
 		penv := fr.specEnv(e.st, e.instr.Block(), nil)
 		penv.old = pre
 		bindResultNames(penv.vars, fn.Signature, e.results)
+		vc.curFrame, vc.curInstr, vc.curState = fr, e.instr, e.st
 		for i, cl := range con.Ensures {
 			vc.addGoals(penv, cl, fmt.Sprintf("ensures[%s]@ret%d", clauseLabel(cl, i), e.ord), "ensures", e.guard, "ensures ", fr.posString(e.instr.Pos()))
 		}
